@@ -187,7 +187,11 @@ def replay_family(legs, idx, name, kw, sample, devs, seed):
                                   "WorkerCtl.tla: %s" % (name, summ["classes"].get(v["class"], 1), json.dumps(v["detail"])[:200]),
                            json.dumps(v["line"]) + "\n",
                            PREFIX + "%s_%s.ndjson" % (name, v["class"].replace(":", "_").replace("/", "_")))
+    if summ.get("unstable"):
+        vlib.log("listen-faults replay %s: %d run(s) differed once and conformed when re-executed alone with more patience "
+                 "(unstable, not a verdict)" % (name, summ["unstable"]))
     with legs.lock:
+        legs.extra["listen_faults_unstable_replay_runs"] = legs.extra.get("listen_faults_unstable_replay_runs", 0) + summ.get("unstable", 0)
         legs.evaluations += summ["responses"] + summ["probes"] + summ["hook_events"]
         legs.samples += ["[listen-faults %s] %s" % (name, s) for s in summ["samples"][-1:]]
     return n_kept, summ["runs"], refused
@@ -234,7 +238,7 @@ def leg_trace(legs):
     n_runs = 1600 if thorough else 300
     chunk = 200
     tcfg = trace_cfg(legs, "lf_trace.cfg")
-    accepted = events = refused = 0
+    accepted = events = refused = unstable = 0
     for c in range(0, n_runs, chunk):
         trace = os.path.join(legs.wd, "lf_trace_%d.ndjson" % c)
         out = vlib.run_harness(legs.bins["drive_workerctl"],
@@ -254,8 +258,39 @@ def leg_trace(legs):
         legs.evaluations += summ["events"]
         with open(trace) as f:
             refused += sum(1 for l in f if '"ev":"cmd"' in l and '"k":"Activate"' in l and '"failure":1' in l)
-        if judge(legs, r, trace, summ, str(c)):
-            accepted += summ["runs"] - skipped
+        # every wait of the driver is a deadline: a rejected run is driven again alone with four times the patience
+        # (same seed => same script); only a run rejected again is a verdict, a run accepted then is dropped as unstable
+        dropped = 0
+        judged = False
+        while not r["accepted"] and dropped < 4:
+            bad = c08.offending_run(trace, summ, r["consumed"])
+            if not bad["run"]:
+                break
+            again = os.path.join(legs.wd, "lf_trace_%d_again_%d.ndjson" % (c, bad["run"]))
+            out2 = vlib.run_harness(legs.bins["drive_workerctl"],
+                                    ["--seed", str(vlib.seed() * 6007 + c), "--runs", str(min(chunk, n_runs - c)), "--threads", "1",
+                                     "--out", again, "--index-base", str(100000 + c), "--scenario", "fault",
+                                     "--only", str(bad["run"]), "--wait-ms", "16000"], timeout=1200)
+            summ2 = [o for o in out2 if o.get("kind") == "summary"][0]
+            r2 = vlib.tlc_trace("Trace_WorkerCtl", tcfg, PID, again, timeout=1200)
+            if not r2["accepted"]:
+                judge(legs, r2, again, summ2, "%d_run%d" % (c, bad["run"]))
+                judged = True
+                break
+            vlib.log("listen-faults: run %d of chunk %d was rejected once and accepted when driven again alone: unstable, dropped" % (bad["run"], c))
+            dropped += 1
+            with open(trace) as f:
+                keep = [l for l in f if json.loads(l).get("run") != bad["run"]]
+            with open(trace, "w") as f:
+                f.writelines(keep)
+            r = vlib.tlc_trace("Trace_WorkerCtl", tcfg, PID, trace, timeout=2400)
+        unstable += dropped
+        if dropped >= 4 and not r["accepted"]:
+            raise vlib.ToolError("listen-faults trace leg inconclusive: more than 4 runs of a chunk were rejected once and accepted when driven again")
+        if not r["accepted"] and not judged:
+            judge(legs, r, trace, summ, str(c))
+        if r["accepted"]:
+            accepted += summ["runs"] - skipped - dropped
             if c == 0 and not canary_rejected(legs, tcfg, trace):
                 raise vlib.ToolError("listen-faults: trace validation accepted a trace whose hold event was removed (binding is vacuous)")
     if refused == 0:
@@ -265,6 +300,7 @@ def leg_trace(legs):
     legs.extra["listen_faults_trace_runs_accepted"] = accepted
     legs.extra["listen_faults_trace_events"] = events
     legs.extra["listen_faults_refused_activations_in_traces"] = refused
+    legs.extra["listen_faults_unstable_trace_runs"] = unstable
 
 
 def canary_rejected(legs, tcfg, trace):
